@@ -72,6 +72,10 @@ def gen_program(rng, profile):
     if base == 'c10':
         gaps += [(bt, 1)]
     nk = rng.choice([1, 2, 3]) if base == 'c11' else rng.choice([2, 3, 4])
+    hot = profile.endswith('-hot')
+    if hot:
+        nk = rng.choice([1, 2])
+        gaps = [(0.0, 3), (bt / 2, 4), (bt - E, 2), (bt + E, 2), (0.125, 3), (0.125 + bt / 2, 2)]
     calls = []
     t = 0.0
     for i in range(n):
@@ -80,7 +84,7 @@ def gen_program(rng, profile):
         if base == 'c10':
             c['key'] = f'u{i}'                      # unique keys: every call enqueues
         else:
-            mode = _w(rng, [('explicit', 7), ('default_unique', 1), ('plain', 2)])
+            mode = _w(rng, [('explicit', 7), ('default_unique', 1), ('plain', 2)]) if not profile.endswith('-hot') else 'explicit'
             if mode == 'explicit':
                 c['key'] = f'k{rng.randrange(nk)}'
             elif mode == 'plain':
@@ -92,6 +96,10 @@ def gen_program(rng, profile):
                 c['cancel_after'] = _w(rng, [(0.0, 3), (bt / 2, 2), (bt + E, 2), (bt + 0.125, 2), (bt + 0.375, 2), (2.0, 1)])
             else:
                 c['timeout'] = _w(rng, [(0.0, 1), (bt / 2, 2), (bt + E, 2), (bt + 0.125, 2), (bt + 0.375, 2), (2.0, 1)])
+        if hot and i >= 1 and rng.random() < 0.45:
+            # issued a little after an earlier call was answered (whenever that turns out to be)
+            c['after'] = rng.randrange(i)
+            c['delay'] = _w(rng, [(0.0, 2), (bt / 2, 3), (0.0625, 2), (0.125 + E, 2), (0.125 + bt / 2, 3), (0.1875, 2)])
         calls.append(c)
     prog['calls'] = calls
     # batch function behaviour
@@ -110,7 +118,18 @@ def gen_program(rng, profile):
                 ('omit', 3), ('raise', 3), ('twice', 1), ('unknown', 1), ('raise_cancelled', 0.8), ('raise_base', 0.4)]
         if not profile.endswith('-nostopiter'):
             behs.append(('stopiter', 0.6))
+    if profile.endswith('-hot'):
+        behs = [('value', 6), ('raise', 4), ('exc', 1), ('omit', 1)]
+        prog['item_dur'] = [_w(rng, [(0.125, 4), (0.25, 2), (0.03125, 1)]) for _ in range(4)]
+        prog['order'] = rng.choice(['fwd', 'rev'])
     prog['script'] = [[_w(rng, behs) for _ in range(3)] for _ in range(5)]
+    if base in ('c04', 'c09') and rng.random() < 0.3:
+        t2 = 0.0
+        by = []
+        for j in range(rng.randint(1, 3)):
+            t2 += _w(rng, gaps)
+            by.append({'at': t2, 'key': f'k{rng.randrange(nk)}'})
+        prog['bystander'] = by
     if base == 'c10' and rng.random() < 0.3:
         prog['mutate'] = [{'at': calls[rng.randrange(len(calls))]['at'] + rng.choice([0.0, E, bt / 2]),
                            'max_batch_size': rng.randint(1, 5)}]
@@ -150,6 +169,7 @@ class Call:
         self.t_done = None
         self.cancel_requested = False
         self.cancel_t = None
+        self.done_fut = None
         self.chained_after = None       # the Call whose answer this call immediately followed (same task)
 
 
@@ -172,6 +192,8 @@ class BatcherWorld:
         self.size_limits = [(0.0, prog['max_batch_size'])]
         self.fired = {}
         self.arrivals = []
+        self.by_results = []
+        self.batcher2 = None
 
     def viol(self, prop, oracle, sig, detail, **features):
         self.violations.append({'property': prop, 'oracle': oracle, 'signature': sig, 'detail': detail,
@@ -227,6 +249,8 @@ class BatcherWorld:
             idur = self.prog['item_dur'][b % 4]
             for key, arg in order:
                 beh = self.behaviour(key)
+                if idur and beh in ('raise', 'raise_cancelled', 'raise_base'):
+                    await asyncio.sleep(idur)
                 if beh == 'raise':
                     B.raised = BatchError(b, key)
                     self.count('bf.raise')
@@ -271,6 +295,22 @@ class BatcherWorld:
             B.end = sch.clock
             if S.CUR is sch:
                 sch.log('batch-end', b)
+
+    async def bf2(self, items):
+        for key, arg in list(items):
+            await asyncio.sleep(0.125)
+            yield key, ('B2', key, arg)
+
+    async def by_call(self, j, o):
+        if o['at'] > self.loop.time():
+            await asyncio.sleep(o['at'] - self.loop.time())
+        try:
+            r = await self.batcher2(('by', j), key=o['key'])
+            self.by_results.append((j, o['key'], 'value', r))
+        except BaseException as e:  # noqa
+            if isinstance(e, GeneratorExit):
+                raise
+            self.by_results.append((j, o['key'], type(e).__name__, e))
 
     def make_obj(self, beh, b, key, arg):
         if beh in ('value', 'twice'):
@@ -321,6 +361,8 @@ class BatcherWorld:
             C.outcome = ('exc', e)
         finally:
             C.t_done = sch.clock
+            if C.done_fut is not None and not C.done_fut.done():
+                C.done_fut.set_result(None)
             if S.CUR is sch:
                 sch.log('ret', C.i, C.outcome[0] if C.outcome else None)
         # chained repeats: the same task asks again at once, with no suspension in between
@@ -345,6 +387,15 @@ class BatcherWorld:
             D.t_done = sch.clock
             sch.log('ret', D.i, D.outcome[0])
             prev = D
+
+    async def caller_after(self, C, D):
+        while D.outcome is None:
+            if D.done_fut is None:
+                D.done_fut = self.loop.create_future()
+            await D.done_fut
+        if C.spec.get('delay'):
+            await asyncio.sleep(C.spec['delay'])
+        await self.caller(C)
 
     def do_cancel(self, C):
         if C.task.done():
@@ -371,12 +422,25 @@ class BatcherWorld:
             self.call = aa.async_background_batcher(**opts)(self.bf_entry)
         for m in p.get('mutate', ()):
             loop.call_at(m['at'], self.mutate, m)
+        by_tasks = []
+        if p.get('bystander'):
+            # another batcher object (same class, own batch function) that happens to use the same key strings
+            self.batcher2 = aa.AsyncBackgroundBatcher(self.bf2, max_batch_size=3, batch_timeout=p['batch_timeout'],
+                                                      retention_timeout=p['retention_timeout'])
+            for j, o in enumerate(p['bystander']):
+                by_tasks.append(loop.create_task(self.by_call(j, o)))
         tasks = []
-        for C in list(self.calls):
+        base_calls = list(self.calls)
+        for C in base_calls:
+            if C.spec.get('after') is not None:
+                tasks.append(loop.create_task(self.caller_after(C, base_calls[C.spec['after']])))
+                continue
             if C.at > loop.time():
                 await asyncio.sleep(C.at - loop.time())
             tasks.append(loop.create_task(self.caller(C)))
         await asyncio.gather(*tasks, return_exceptions=True)
+        if by_tasks:
+            await asyncio.gather(*by_tasks, return_exceptions=True)
         # let retention timers and background work settle, then one more round of fresh calls is
         # part of the program itself (later 'calls'); nothing else to do here
 
@@ -497,6 +561,17 @@ class BatcherWorld:
                 self.viol(prop, oracle, 'caller outcome differs from what the batch function produced for its key',
                           f'call {C.i} key {C.key} ({how}) got {o[0]} {short(o[1])}; batch(es) {[B.b for B in cands]} '
                           f'produced {[short(e) for e in exps]}', **self.c09_features(C))
+        # ---- the second batcher object is independent of the first
+        cancel_world = any(C.cancel_requested for C in self.calls)
+        for j, key, kind, r in self.by_results:
+            if not (kind == 'value' and isinstance(r, tuple) and r[0] == 'B2' and r[1] == key):
+                self.viol('C09' if cancel_world else 'C04', 'batcher.crosstalk',
+                          'a call to a second, independent batcher object was disturbed',
+                          f'bystander call {j} key {key} on the other batcher got {kind} {short(r)}')
+                break
+        if self.prog.get('bystander') and len(self.by_results) < len(self.prog['bystander']) and self.end == 'normal':
+            self.viol('C09' if cancel_world else 'C04', 'batcher.crosstalk', 'a call to a second batcher never completed',
+                      f'{len(self.by_results)} of {len(self.prog["bystander"])} bystander calls completed')
         # ---- background task death
         for ctx in getattr(self, 'exc_contexts', ()):
             msg = ctx.get('message', '')
@@ -520,6 +595,9 @@ class BatcherWorld:
                 # without cancellations this is C11's clause; with them it is how cancelling one caller harms the others
                 self.viol('C09' if cancel_world else 'C11', 'batcher.key_twice_in_batch', 'a batch carries a key twice',
                           f'batch {B.b}: {keys}', cancel_world=cancel_world)
+                if not cancel_world:
+                    self.viol('C04', 'batcher.key_twice_in_batch', 'a batch carries a key twice (one of its callers cannot be answered)',
+                              f'batch {B.b}: {keys}')
             if not keys:
                 self.viol('C10', 'batcher.empty_batch', 'batch function called with an empty batch', f'batch {B.b}')
             lim = max(n for t, n in self.size_limits if t <= B.start) if len(self.size_limits) == 1 else \
